@@ -22,8 +22,8 @@ def enc_len(n, form="min"):
         k = (n.bit_length() + 7) // 8
         return bytes([0x80 | k]) + n.to_bytes(k, "big")
     k = int(form[4:])
-    if n >= 256**k:
-        raise BerError("length does not fit")
+    while n >= 256**k:  # does not fit: use the next longer long form
+        k += 1
     return bytes([0x80 | k]) + n.to_bytes(k, "big")
 
 
